@@ -17,9 +17,9 @@ RULE = ("each case: 2-4 keys, 1-6 batches of 1-5 announcements. Model: an announ
         "lower seqnum after a higher one; distinct by whole case.")
 LEVEL_TEXT = "Random announcement streams against a dictionary model of the replacement rule."
 ASSUMPTIONS = ["each element of a batch is a 3-tuple (msg, sig, key) of bytes or None, as the Foolscap schema enforces", "ed25519 from the cryptography package is sound"]
-REQUIRED_CLASSES = ["bad-then-valid-in-batch", "wrong-key", "flipped", "unsigned", "malformed-encoding", "sig-wrong-length", "replay", "lower-seqnum", "equal-seqnum", "replaced", "nonint-seqnum", "other-service"]
+REQUIRED_CLASSES = ["bad-then-valid-in-batch", "wrong-key", "flipped", "unsigned", "malformed-encoding", "sig-wrong-length", "signed-but-malformed-contents", "replay", "lower-seqnum", "equal-seqnum", "replaced", "nonint-seqnum", "other-service"]
 BUDGET = {"quick": 600, "thorough": 3600}
-KINDS = ["valid", "valid", "valid", "valid", "wrong-key", "flip-msg", "flip-sig", "unsigned", "sig-no-v0", "key-no-v0", "sig-bad-b32", "key-bad-b32", "key-short", "sig-len", "sig-len", "replay", "other-service"]
+KINDS = ["valid", "valid", "valid", "valid", "wrong-key", "flip-msg", "flip-sig", "unsigned", "sig-no-v0", "key-no-v0", "sig-bad-b32", "key-bad-b32", "key-short", "sig-len", "sig-len", "signed-garbage", "signed-garbage", "replay", "other-service"]
 
 
 def plan(tier):
@@ -135,6 +135,17 @@ def run_case(case, ctx):
                 t = (t[0], b"v0-" + base32.b2a(raw2), t[2])
                 valid = False
                 classes.add("sig-wrong-length" if n != 64 else "flipped")
+            elif kind == "signed-garbage":
+                # properly signed by the claimed key, but the contents are not a usable announcement (anybody can do this with a key of their own)
+                from allmydata.util import jsonbytes as _json
+                from allmydata.crypto import ed25519 as _ed
+                from allmydata.util import base32 as _b32
+                bad_body = [[1], {"nickname": u"x"}, dict(body, nickname=5), dict(body, **{"anonymous-storage-FURL": "bogus"}), dict(body, **{"service-name": 7})][a["pos"] % 5]
+                msg_ = _json.dumps(bad_body).encode("utf-8")
+                sig_ = b"v0-" + _b32.b2a(_ed.sign_data(sk, msg_))
+                t = (msg_, sig_, keystr[a["key"]])
+                valid = False
+                classes.add("signed-but-malformed-contents")
             elif kind == "key-short":
                 t = (t[0], t[1], t[2][:-4])
                 valid = False
